@@ -847,8 +847,8 @@ class MyPyAstVisitor:
         assert isinstance(parent, Class)
         docstring = self.docstring_parser.get_attribute_documentation(parent.id, name)
 
-        # Remove __init__ for attribute ids
-        id_ = self._create_id_from_stack(name).replace("__init__/", "")
+        # Attributes belong to the class, also if they are assigned in the constructor (__init__)
+        id_ = f"{parent.id}/{name}"
 
         return Attribute(
             id=id_,
